@@ -494,4 +494,57 @@ theorem BI.allocTable {L : Layout} {mods : List ModInfo} {loaded : String → Op
       exact ⟨by rw [hg]; exact sl.1, by rw [hg]; exact sl.2.1, by rw [getTable_allocTable_empty]; exact sl.2.2.1,
         sl.2.2.2.1, sl.2.2.2.2.1, by have := sl.2.2.2.2.2; omega⟩
 
+/-! ### tables that must stay untouched: the boxes of accessor calls still in progress -/
+
+/-- `ps` are table ids allocated by accessor calls that have not finished yet (their box exists,
+is still empty and is not stored anywhere) -/
+def Pend (L : Layout) (mods : List ModInfo) (ps : List Nat) (loaded : String → Option (Nat × Val N)) (σ : State N) : Prop :=
+  ∀ t ∈ ps, t < σ.tables.length ∧ σ.getTable t = { entries := [], mt := none } ∧ t ≠ L.tC ∧ t ≠ L.tM ∧
+    ∀ m ∈ mods, ∀ tb w, loaded m.name = some (tb, w) → tb ≠ t
+
+theorem Pend.allocCell {L : Layout} {mods : List ModInfo} {ps : List Nat} {loaded : String → Option (Nat × Val N)}
+    {σ : State N} (h : Pend L mods ps loaded σ) (v : Val N) : Pend L mods ps loaded (σ.allocCell v).2 := h
+
+theorem Pend.allocTable_new {L : Layout} {mods : List ModInfo} {ps : List Nat} {loaded : String → Option (Nat × Val N)}
+    {σ : State N} (h : Pend L mods ps loaded σ) (hbi : BI L mods loaded σ) :
+    Pend L mods (σ.tables.length :: ps) loaded (σ.allocTable { entries := [], mt := none }).2 := by
+  have hlen : (σ.allocTable { entries := [], mt := none }).2.tables.length = σ.tables.length + 1 := by
+    simp [State.allocTable]
+  intro t ht
+  rcases List.mem_cons.mp ht with ht | ht
+  · subst ht
+    refine ⟨by omega, ?_, ?_, ?_, ?_⟩
+    · simp [State.getTable, State.allocTable]
+    · have := hbi.infra.ltC; omega
+    · have := rawGet_ne_nil_lt σ L.tM _ _ hbi.infra.cache (by simp); omega
+    · intro m hm tb w hl
+      have sl := hbi.slots m hm
+      rw [hl] at sl
+      have := sl.2.2.2.2.2
+      omega
+  · obtain ⟨h1, h2, h3, h4, h5⟩ := h t ht
+    exact ⟨by omega, by rw [getTable_allocTable_empty]; exact h2, h3, h4, h5⟩
+
+/-- after the first call of an accessor its own box is no longer pending; the others still are -/
+theorem Pend.after_miss {L : Layout} {mods : List ModInfo} {ps : List Nat} {loaded loaded' : String → Option (Nat × Val N)}
+    {σ σb : State N} (name : String) (v : Val N)
+    (h : Pend L mods ps loaded σ) (hb : Pend L mods (σ.tables.length :: ps) loaded' σb) :
+    Pend L mods ps (updLoaded loaded' name (σ.tables.length, v))
+      (afterMiss σb σ.cells.length σ.tables.length L.tC name v) := by
+  have hlen : (afterMiss σb σ.cells.length σ.tables.length L.tC name v).tables.length = σb.tables.length := by
+    simp [afterMiss, State.rawSet, State.setTable, State.setCell, listSet_length]
+  intro t ht
+  obtain ⟨h1, _, _, _, _⟩ := h t ht
+  obtain ⟨b1, b2, b3, b4, b5⟩ := hb t (List.mem_cons_of_mem _ ht)
+  refine ⟨by rw [hlen]; exact b1, ?_, b3, b4, ?_⟩
+  · simp only [afterMiss]
+    rw [getTable_rawSet_ne _ _ _ _ _ (Ne.symm b3), getTable_setCell,
+      getTable_rawSet_ne _ _ _ _ _ (by omega : σ.tables.length ≠ t)]
+    exact b2
+  · intro m hm tb w hl
+    simp only [updLoaded] at hl
+    split at hl
+    · cases hl; omega
+    · exact b5 m hm tb w hl
+
 end DarkluaModel.C05
